@@ -190,7 +190,11 @@ def _is_mask(k):
     if k[0] == "call":
         f = k[1]
         name = f[2] if f[0] == "attr" else (f[1].split(".")[-1] if f[0] == "global" else None)
+        if f[0] == "attr" and name in ("flatten", "ravel", "squeeze", "to_numpy", "copy") and not k[2]:
+            return _is_mask(f[1])  # a reshaped mask is a mask
         return name in _MASK_CALLS
+    if k[0] == "attr" and k[2] == "values":
+        return _is_mask(k[1])
     return False
 
 
